@@ -509,3 +509,40 @@ func importQueueRules(p *core.Program, r *core.Report, rule string) {
 		}
 	}
 }
+
+// FixedList: the elements of `range <list>` when the list is an array/slice literal of expressions, or
+// a call of an unexported helper whose body is one `return <such a literal>` (receiver and parameters
+// replaced by the call's): lanes() returning [2]*L{this.queue1, this.queue2}.
+func (in *inliner) FixedList(rs *ast.RangeStmt) []ast.Expr {
+	info := in.fi.Pkg.TypesInfo
+	x := ast.Unparen(rs.X)
+	if call, ok := x.(*ast.CallExpr); ok {
+		cfi, repl := in.callee(call)
+		if cfi == nil || len(cfi.Decl.Body.List) != 1 {
+			return nil
+		}
+		ret, ok := cfi.Decl.Body.List[0].(*ast.ReturnStmt)
+		if !ok || len(ret.Results) != 1 {
+			return nil
+		}
+		sub, _ := paths.Subst(info, ret.Results[0], repl).(ast.Expr)
+		x = ast.Unparen(sub)
+	}
+	cl, ok := x.(*ast.CompositeLit)
+	if !ok {
+		return nil
+	}
+	switch info.TypeOf(cl).Underlying().(type) {
+	case *types.Array, *types.Slice:
+	default:
+		return nil
+	}
+	var out []ast.Expr
+	for _, el := range cl.Elts {
+		if _, kv := el.(*ast.KeyValueExpr); kv {
+			return nil
+		}
+		out = append(out, el)
+	}
+	return out
+}
